@@ -5065,6 +5065,25 @@ impl Zeroconf {
     /// grants an iteration, then reads the injected datagrams with the
     /// daemon's own `handle_read`. No effect without a simulated world.
     fn verif_gate(&mut self, timeout: Option<Duration>, pending_cmds: usize) -> Option<Duration> {
+        // what the loop holds for later when it parks: the timer heap and the queued re-runs
+        crate::verif::publish_loop(
+            self.timers.iter().map(|Reverse(t)| *t).collect(),
+            self.retransmissions
+                .iter()
+                .map(|r| {
+                    let (kind, key): (&'static str, String) = match &r.command {
+                        Command::Browse(ty, _, _, _) => ("Browse", ty.clone()),
+                        Command::ResolveHostname(h, _, _, _) => ("ResolveHostname", h.clone()),
+                        Command::RegisterResend(n, idx) => ("RegisterResend", format!("{n}%{idx}")),
+                        Command::UnregisterResend(_, idx, v4) => ("UnregisterResend", format!("{idx}%{v4}")),
+                        Command::Resolve(i, _) => ("Resolve", i.clone()),
+                        Command::Verify(i, _) => ("Verify", i.clone()),
+                        _ => ("other", String::new()),
+                    };
+                    (r.next_time, kind, key)
+                })
+                .collect(),
+        );
         match crate::verif::gate_wait(timeout, pending_cmds) {
             crate::verif::Gate::NoWorld => timeout,
             mode => {
